@@ -756,7 +756,30 @@ class SymBytes(SymSeq):
             return utf8_decode(self._items)
         if errors == "strict" and e == "utf16le":
             return utf16le_decode(self._items)
-        return self.realize().decode(enc, errors)
+        if errors == "strict" and e == "utf8sig":
+            # a leading EF BB BF is dropped
+            it = self._items
+            if len(it) >= 3 and _t(SymBytes(it[:3]) == b"\xef\xbb\xbf"):
+                return utf8_decode(it[3:])
+            return utf8_decode(it)
+        if errors == "strict" and e == "utf16":
+            # byte-order mark decides; without one CPython uses the native order (little endian on the platforms this runs on)
+            it = self._items
+            if len(it) >= 2 and _t(SymBytes(it[:2]) == b"\xff\xfe"):
+                return utf16le_decode(it[2:])
+            if len(it) >= 2 and _t(SymBytes(it[:2]) == b"\xfe\xff"):
+                swapped = []
+                for i in range(2, len(it) - 1, 2):
+                    swapped += [it[i + 1], it[i]]
+                if (len(it) - 2) % 2:
+                    swapped.append(it[-1])
+                return utf16le_decode(swapped)
+            return utf16le_decode(it)
+        if self.concrete():
+            return bytes(self.realize()).decode(enc, errors)
+        from .engine import Unsupported
+
+        raise Unsupported(f"bytes.decode({enc!r}, {errors!r}) of symbolic octets is not modelled")
 
     def replace(self, a, b, count=-1):
         a, b = bytes(a), bytes(b)
